@@ -83,6 +83,10 @@ def parseOp (ws : List String) : Option Op :=
     match u.toNat?, d.toNat?, o.toNat?, sent.toNat? with
     | some u, some d, some o, some sent => some (.swapBad u d o sent)
     | _, _, _, _ => none
+  | ["provbad", u, a, b, k] =>
+    match u.toNat?, a.toNat?, b.toNat?, k.toNat? with
+    | some u, some a, some b, some k => some (.provideBad u a b k)
+    | _, _, _, _ => none
   | ["wdirect", u, _denom, a] =>
     match u.toNat?, a.toNat? with
     | some u, some a => some (.foreign 0 u a)
